@@ -141,10 +141,10 @@ pub fn adapt_dft(c: &mut OpCase) {
         "cnv_apply_dft" | "cnv_pairwise_apply_dft" | "cnv_by_const_apply" | "cnv_prepare_left" | "cnv_prepare_right" | "cnv_prepare_self" => {
             c.x[0] %= c.size[1] as u32 + c.size[2] as u32 + 1; // cnv_offset
             if op == "cnv_pairwise_apply_dft" {
-                // both prepared operands share the column count
-                c.cols[2] = c.cols[1];
-                c.x[1] %= c.cols[1] as u32;
-                c.x[2] %= c.cols[1] as u32;
+                // the two prepared operands may have different column counts: only the selected columns must exist in both
+                let mc = c.cols[1].min(c.cols[2]) as u32;
+                c.x[1] %= mc;
+                c.x[2] %= mc;
             }
             // mask: !0 << t with t < digit width (what msb_mask_bottom_limb produces); fixed after the
             // digit width is final, see below
